@@ -54,6 +54,10 @@ pub struct Cfg {
     /// alone make the schedule space explode)
     #[serde(default)]
     pub strict_deviations: bool,
+    /// a task that yields may also simply continue (one deviation): explores spin-then-park
+    /// back-offs parking before the other side acts. Off by default: a yield hands over.
+    #[serde(default)]
+    pub yield_alts: bool,
 }
 
 pub static ACTIVE: AtomicBool = AtomicBool::new(false);
@@ -991,6 +995,7 @@ pub unsafe extern "C" fn poll(fds: *mut libc::pollfd, nfds: libc::nfds_t, timeou
         let r = match d {
             Decision::TimerFired => {
                 (*fds).revents = 0;
+                CLOCK_SKEW_NS.fetch_add(timeout.max(0) as u64 * 1_000_000, Ordering::SeqCst);
                 0
             },
             _ => raw::poll(fds, 1, 0),
@@ -1007,6 +1012,7 @@ pub unsafe extern "C" fn poll(fds: *mut libc::pollfd, nfds: libc::nfds_t, timeou
                 for i in 0..nfds as usize {
                     (*fds.add(i)).revents = 0;
                 }
+                CLOCK_SKEW_NS.fetch_add(timeout.max(0) as u64 * 1_000_000, Ordering::SeqCst);
                 0
             },
             _ => raw::poll(fds, nfds as usize, 0),
@@ -1106,7 +1112,10 @@ pub unsafe extern "C" fn epoll_wait(epfd: c_int, events: *mut libc::epoll_event,
         let d = sched::point(op);
         let r = match d {
             Decision::Eintr => -(libc::EINTR as isize),
-            Decision::TimerFired => 0,
+            Decision::TimerFired => {
+                CLOCK_SKEW_NS.fetch_add(timeout.max(0) as u64 * 1_000_000, Ordering::SeqCst);
+                0
+            },
             _ => sc6(libc::SYS_epoll_wait, epfd as usize, events as usize, max as usize, 0, 0, 0),
         };
         trace_push("epoll_wait", epfd, max as i64, r as i64, vec![], 0);
